@@ -640,6 +640,22 @@ class FakeTransport:
         self.closed = True
 
 
+async def connect(ec, loop, bus, policy=None):
+    """the master's own connect() over the simulated bus: only the loop's
+    datagram endpoint is replaced"""
+    async def endpoint(protocol_factory, **kw):
+        proto = protocol_factory()
+        tr = FakeTransport(loop, bus, proto, policy)
+        proto.connection_made(tr)
+        return tr, proto
+    old = loop.create_datagram_endpoint
+    loop.create_datagram_endpoint = endpoint
+    try:
+        await ec.connect()
+    finally:
+        loop.create_datagram_endpoint = old
+
+
 def attach(ec, loop, bus, policy=None):
     """connect a real EtherCat object to the simulated bus"""
     import asyncio
